@@ -234,6 +234,11 @@ pub fn run_e1(root: &Root, cfg: &E1Config, report: &Report, samples: &mut Vec<Va
                     report.record(&e.divs, || json!({"kind": "state", "root": root_fen, "moves": path}));
                 }
                 for c in e.children {
+                    // the properties quantify over clock values 0..9999 (what FEN text can carry);
+                    // the transition INTO such a state was checked above, the state itself is out of scope
+                    if c.rp.full > 9999 || c.rp.half > 9999 {
+                        continue;
+                    }
                     let Some(cb) = c.board else { continue };
                     let k = key_of(&c.rp);
                     match seen.get(&k) {
